@@ -7,6 +7,7 @@ import (
 	"os"
 	"os/exec"
 	"path/filepath"
+	"regexp"
 	"runtime/coverage"
 	"runtime/debug"
 	"strconv"
@@ -60,6 +61,32 @@ func guarded(out *json.Encoder, idx int, entry string, calls *int64, f func()) {
 	f()
 }
 
+var wordRe = regexp.MustCompile(`[A-Za-z_][A-Za-z0-9_./-]*`)
+
+// lineHelpers: the exported line-lookup helpers the merge errors are built with, on the lines of the text and with
+// the words of the text itself (and the keywords) as the names looked for.
+func lineHelpers(out *json.Encoder, idx int, text string, calls *int64) {
+	if len(text) > 4000 {
+		return
+	}
+	guarded(out, idx, "utils-line-numbers", calls, func() {
+		lines := strings.Split(text, "\n")
+		seen := map[string]bool{}
+		words := []string{"type", "define", "condition", "extend", ""}
+		for _, w := range wordRe.FindAllString(text, 40) {
+			if !seen[w] && len(words) < 14 {
+				seen[w] = true
+				words = append(words, w)
+			}
+		}
+		for _, w := range words {
+			for _, i := range []int{utils.GetTypeLineNumber(w, lines), utils.GetExtendedTypeLineNumber(w, lines), utils.GetRelationLineNumber(w, lines), utils.GetConditionLineNumber(w, lines)} {
+				utils.ConstructLineAndColumnData(lines, i, w)
+			}
+		}
+	})
+}
+
 func exerciseInput(out *json.Encoder, in c08Input, calls, accepts, rejects *int64) {
 	idx := in.Idx
 	switch in.Stream {
@@ -78,6 +105,7 @@ func exerciseInput(out *json.Encoder, in c08Input, calls, accepts, rejects *int6
 					Detail: fmt.Sprintf("ParseDSL collected errors: %v; TransformDSLToProto error: %v; model nil: %v", collected, err, m == nil)})
 			}
 		})
+		lineHelpers(out, idx, in.Text, calls)
 		if err != nil {
 			*rejects++
 		} else {
@@ -95,6 +123,9 @@ func exerciseInput(out *json.Encoder, in c08Input, calls, accepts, rejects *int6
 		mods := make([]transformer.ModuleFile, len(in.Files))
 		for i, f := range in.Files {
 			mods[i] = transformer.ModuleFile{Name: f.Name, Contents: f.Contents}
+			if i < 3 {
+				lineHelpers(out, idx, f.Contents, calls)
+			}
 		}
 		guarded(out, idx, "TransformModuleFilesToModel", calls, func() {
 			m, err := transformer.TransformModuleFilesToModel(mods, "1.2")
